@@ -133,6 +133,8 @@ def check_zero_self(rep, M: Metrics, pre: str = "") -> int:
 def check_definedness(rep, M: Metrics, pre: str = "") -> int:
     n = 0
     for name in M.names():
+        if name not in M.spec.AXIOMS:
+            continue  # an identifier without a domain / axiom entry is C06's finding (FORM-known), not a finiteness verdict
         tr, ops = M.translated(name)
         if ops.domain == "P" and not tr.decorated:
             # strictly positive arguments are what the shifting decorator provides; without it the
@@ -282,7 +284,8 @@ def check_registry(rep, M: Metrics, pre: str = "") -> None:
     # OPF.__init__: whitelist check precedes the lookup, lookup uses the same identifier
     from .ir import Walker
     init = repo.need_method("OPF", "__init__")
-    w = Walker(repo, init, self_class="OPF", inline=lambda f: False)
+    from .common import registry_accessor
+    w = Walker(repo, init, self_class="OPF", inline=registry_accessor(repo))
     st_d = [e for e in w.events if e.kind == "store" and e.target == ("attr", ("self",), "distance")]
     st_f = [e for e in w.events if e.kind == "store" and e.target == ("attr", ("self",), "distance_fn")]
     okd = len(st_d) == 1 and st_d[0].value == ("param", "distance")
